@@ -2126,7 +2126,12 @@ class ExpressionEvaluator(Parser):
             if operator.token == "?":
                 condition = expr
                 false_result = rhs
-                expr = true_result if condition else false_result
+                unsigned = isinstance(true_result, np.uint64) or isinstance(
+                    false_result,
+                    np.uint64,
+                )
+                expr = true_result if condition != 0 else false_result
+                expr = self.__wrap(int(expr), unsigned)
             else:
                 expr = self.__apply_binary_op(operator.token, expr, rhs)
 
@@ -2152,18 +2157,33 @@ class ExpressionEvaluator(Parser):
             return exprs
 
     @staticmethod
+    def __wrap(value, unsigned):
+        """
+        Convert a Python integer to the 64-bit type used for preprocessor
+        arithmetic (intmax_t or uintmax_t), wrapping modulo 2**64.
+        """
+        value %= 1 << 64
+        if unsigned:
+            return np.uint64(value)
+        if value >= 1 << 63:
+            value -= 1 << 64
+        return np.int64(value)
+
+    @staticmethod
     def __apply_unary_op(op, operand):
         """
         Apply the specified unary operator: op operand
         """
+        unsigned = isinstance(operand, np.uint64)
+        value = int(operand)
         if op == "-":
-            return -operand
+            return ExpressionEvaluator.__wrap(-value, unsigned)
         elif op == "+":
-            return +operand
+            return ExpressionEvaluator.__wrap(value, unsigned)
         elif op == "!":
-            return not operand
+            return np.int64(1 if value == 0 else 0)
         elif op == "~":
-            return ~operand
+            return ExpressionEvaluator.__wrap(~value, unsigned)
         else:
             raise ValueError("Not a valid unary operator.")
 
@@ -2171,43 +2191,70 @@ class ExpressionEvaluator(Parser):
     def __apply_binary_op(op, lhs, rhs):
         """
         Apply the specified binary operator: lhs op rhs
+
+        Operands are converted as in C (an unsigned operand makes the
+        operation unsigned), relational, equality and logical operators
+        yield 0 or 1, and / and % truncate toward zero.
         """
+        wrap = ExpressionEvaluator.__wrap
+        a, b = int(lhs), int(rhs)
+
         if op == "||":
-            return lhs or rhs
+            return np.int64(1 if (a != 0 or b != 0) else 0)
         elif op == "&&":
-            return lhs and rhs
-        elif op == "|":
-            return lhs | rhs
+            return np.int64(1 if (a != 0 and b != 0) else 0)
+        elif op in ["<<", ">>"]:
+            # The result has the type of the (promoted) left operand.
+            unsigned = isinstance(lhs, np.uint64)
+            if isinstance(rhs, np.uint64):
+                b %= 1 << 64
+            if b < 0 or b >= 64:
+                raise ValueError("Invalid shift count.")
+            if op == "<<":
+                return wrap(a << b, unsigned)
+            return wrap(a >> b, unsigned)
+
+        # Usual arithmetic conversions.
+        unsigned = isinstance(lhs, np.uint64) or isinstance(rhs, np.uint64)
+        if unsigned:
+            a %= 1 << 64
+            b %= 1 << 64
+
+        if op == "|":
+            return wrap(a | b, unsigned)
         elif op == "^":
-            return lhs ^ rhs
+            return wrap(a ^ b, unsigned)
         elif op == "&":
-            return lhs & rhs
+            return wrap(a & b, unsigned)
         elif op == "==":
-            return lhs == rhs
+            return np.int64(1 if a == b else 0)
         elif op == "!=":
-            return lhs != rhs
+            return np.int64(1 if a != b else 0)
         elif op == "<":
-            return lhs < rhs
+            return np.int64(1 if a < b else 0)
         elif op == "<=":
-            return lhs <= rhs
+            return np.int64(1 if a <= b else 0)
         elif op == ">":
-            return lhs > rhs
+            return np.int64(1 if a > b else 0)
         elif op == ">=":
-            return lhs >= rhs
-        elif op == "<<":
-            return lhs << rhs
-        elif op == ">>":
-            return lhs >> rhs
+            return np.int64(1 if a >= b else 0)
         elif op == "+":
-            return lhs + rhs
+            return wrap(a + b, unsigned)
         elif op == "-":
-            return lhs - rhs
+            return wrap(a - b, unsigned)
         elif op == "*":
-            return lhs * rhs
-        elif op == "/":
-            return lhs // rhs  # force integer division
-        elif op == "%":
-            return lhs % rhs
+            return wrap(a * b, unsigned)
+        elif op in ["/", "%"]:
+            # Division by zero is undefined; it may appear in an operand
+            # that C would not evaluate (e.g. 0 && 1/0), so yield 0.
+            if b == 0:
+                return wrap(0, unsigned)
+            quotient = abs(a) // abs(b)
+            if (a < 0) != (b < 0):
+                quotient = -quotient
+            if op == "/":
+                return wrap(quotient, unsigned)
+            return wrap(a - quotient * b, unsigned)
         else:
             raise ValueError("Not a binary operator.")
 
